@@ -336,7 +336,9 @@ impl Mac {
                 snr,
                 true,
             )),
-            State::Otaa(_) => Err(Error::NotJoined),
+            // While a join is under way there is no session a Class C frame could belong to:
+            // whatever is heard between the join request and its windows is not for us.
+            State::Otaa(_) => Ok(Response::NoUpdate),
             State::Unjoined => Err(Error::NotJoined),
         }
     }
